@@ -71,7 +71,7 @@ def check_intrusive_list(ctx, unit, cls="frg::_list::intrusive_list"):
         for name in ("push_front", "push_back", "insert"):
             for f in fns.get(name, []):
                 ps = f.params()
-                elem = [p["d"] for p in ps if p["n"] == "element"]
+                elem = [ps[-1]["d"]] if ps else []       # the element to insert is the last parameter
                 if not elem:
                     raise AnalysisBroken("anchor vanished: parameter element of %s" % f.qn)
                 new = set(elem)
@@ -151,10 +151,10 @@ def check_intrusive_list(ctx, unit, cls="frg::_list::intrusive_list"):
             ctx.inst("H.list-erase", "%s::erase" % cls, not bad and bool(sets), f.loc,
                      "; ".join(sorted(set(bad))) if bad else "%d paths examined" % len(sets), f)
         for f in fns.get("splice", []):
-            oth = [p for p in f.params() if p["n"] == "other"]
+            oth = [p for p in f.params() if p.get("rt") == cls]
             if not oth:
                 raise AnalysisBroken("anchor vanished: parameter other of splice")
-            root = "p:other#%d" % oth[0]["d"]
+            root = "p:%s#%d" % (oth[0]["n"], oth[0]["d"])
 
             def label(n, f=f):
                 hw = hook_write(n)
